@@ -168,8 +168,9 @@ class StaticFileHandler(RequestHandler):
             )
 
         try:
-            # Read file contents
-            content = file_path.read_text(encoding="utf-8")
+            # Read file contents. Decode the bytes ourselves: read_text() would
+            # translate "\r\n" and "\r" into "\n" and so alter what is served.
+            content = file_path.read_bytes().decode("utf-8")
 
             # Determine MIME type
             mime_type = self._get_mime_type(file_path)
